@@ -1,0 +1,10 @@
+//go:build verif
+
+// Contracts for package source (comment-only; see /verif/DESIGN.md).
+
+package source
+
+//@ func NewSource
+//@   trusted
+//@   assigns nothing
+//@   ensures result != nil
